@@ -25,6 +25,13 @@ def rnd_ctlv(rng, cls):
 
 def events(ctx):
     rng = ctx.rng
+    from ..core import source_constants
+    for c in source_constants():
+        yield record("tlv.unpack", {"octets": list(c) + [6, 2, 1, 2]})
+        yield record("tlv.unpack", {"octets": [2, len(c) + 2] + list(c) + [1, 2]})
+        yield record("lv.unpack", {"octets": list(c) + [2, 1, 2] + [0] * 300})
+        for cls in ("entity", "flow", "fault", "fsreq", "fsresp", "msg"):
+            yield record("ctlv.unpack", {"cls": cls, "octets": list(c) + [6, 2, 1, 2], "via": "unpack"})
     for n in range(0, 258):
         yield record("lv.rt", {"v": rnd_bytes(rng, n), "sfx": rnd_bytes(rng, rng.choice([0, 0, 3]))})
         yield record("tlv.rt", {"t": rng.choice([0, 1, 2, 4, 5, 6]), "v": rnd_bytes(rng, n), "sfx": rnd_bytes(rng, rng.choice([0, 0, 3]))})
